@@ -12,6 +12,8 @@ E = "clematis/adapters/embeddings.py"
 ES = "clematis/engine/util/embed_store.py"
 Q = "clematis/engine/stages/t2/quality_ops.py"
 CASES = [
+    ("match-keywords-default-accumulator", "mutant", T1, [("def _match_keywords(text: str, labels: List[Tuple[str, str]]) -> Dict[str, float]:\n", "def _match_keywords(text: str, labels: List[Tuple[str, str]], seeds: Dict[str, float] = {}) -> Dict[str, float]:\n"), ("    t = text.lower()\n    seeds: Dict[str, float] = {}\n", "    t = text.lower()\n")], None, "C01.HIST"),
+    ("match-keywords-default-none", "twin", T1, [("def _match_keywords(text: str, labels: List[Tuple[str, str]]) -> Dict[str, float]:\n", "def _match_keywords(text: str, labels: List[Tuple[str, str]], seeds: Optional[Dict[str, float]] = None) -> Dict[str, float]:\n"), ("    t = text.lower()\n    seeds: Dict[str, float] = {}\n", "    t = text.lower()\n    seeds = {} if seeds is None else seeds\n")], None, None),
     ("tick-prunes-by-key-set-rebuild", "mutant", "clematis/engine/gel.py", "    for key in to_delete:\n        edges.pop(key, None)\n", "    if to_delete:\n        edges = {key: edges[key] for key in edges.keys() - to_delete}\n        gstore[\"edges\"] = edges\n", "C01.ORDER"),
     ("tick-prunes-by-ordered-rebuild", "twin", "clematis/engine/gel.py", "    for key in to_delete:\n        edges.pop(key, None)\n", "    if to_delete:\n        gone = set(to_delete)\n        edges = {key: rec for key, rec in edges.items() if key not in gone}\n        gstore[\"edges\"] = edges\n", None),
     ("tick-prunes-by-sorted-key-set", "twin", "clematis/engine/gel.py", "    for key in to_delete:\n        edges.pop(key, None)\n", "    for key in sorted(set(to_delete)):\n        edges.pop(key, None)\n", None),
